@@ -31,6 +31,7 @@ def run(ctx):
     run.trusted_base = ["CPython ast", "sa/forward.py provenance"]
     run.assumptions = ["member sources honour _composite_filters (C12.all-answers-filtered decides it for memory/filesystem)"]
     ctx.do(rule_member_forward)
+    ctx.do(rule_composite_kept_whole)
     ctx.do(rule_dedup)
     ctx.do(rule_navigation_over_union)
     ctx.do(rule_newest)
@@ -117,6 +118,41 @@ def rule_member_forward(ctx, rule_id="C18.member-forward"):
                       expected="%s = FilterSet(); %s.add(self.filters); %s.add(_composite_filters)" % (cf.id, cf.id, cf.id),
                       found=notfresh + [short(x) for x in selfmut])
     run.floor(R, 9)
+
+
+def rule_composite_kept_whole(ctx, rule_id="C18.member-forward"):
+    """A composite is attached and consulted as ONE source: its own filters, and its membership at the time of the question,
+    are part of what it answers.  Code that takes the members out (`.data_sources`, `get_all_data_sources()`) and attaches or
+    asks them directly drops the composite's filters and freezes its membership.  Who-may-read rule: members are read only
+    inside CompositeDataSource itself."""
+    run = ctx.run
+    prog = ctx.prog
+    cls = prog.cls(DS + "::CompositeDataSource")
+    if "get_all_data_sources" not in cls.methods:
+        raise AnalysisError("anchor missing: CompositeDataSource.get_all_data_sources")
+    inside = 0
+    for fi in sorted(prog.functions.values(), key=lambda f: f.id):
+        if fi.module.relpath.startswith("stix2/test"):
+            continue
+        for x in body_walk(fi.node):
+            hit = None
+            if isinstance(x, ast.Attribute) and x.attr == "data_sources" and isinstance(x.ctx, ast.Load):
+                hit = x
+            if isinstance(x, ast.Call) and isinstance(x.func, ast.Attribute) and x.func.attr == "get_all_data_sources":
+                hit = x
+            if hit is None:
+                continue
+            if fi.cls is cls:
+                inside += 1
+                continue
+            run.violation(rule_id, key(fi.module.relpath, fi.qualname, "members-read-outside-the-composite:%s" % short(hit, 40)),
+                          "the members of a composite are taken out of it: attached or asked directly they answer without the "
+                          "composite's own filters, and members added to (or removed from) the composite later are not seen",
+                          file=fi.module.relpath, line=hit.lineno, function=fi.qualname,
+                          expected="attach / ask the composite itself", found=short(hit, 80))
+    if inside < 5:
+        raise AnalysisError("CompositeDataSource reads its members at fewer than 5 places (%d): anchors lost" % inside)
+    run.ok(rule_id, key(cls.module.relpath, cls.qualname, "members-read-only-inside"), "%d reads, all inside the class" % inside)
 
 
 def _helper_combination(prog, fi, cf):
